@@ -30,7 +30,7 @@ ASSUMPTIONS = [
 ]
 
 GATES1 = ["h", "s", "sdg", "x", "y", "z"]
-GATES2 = ["cnot", "cz", "swap"]
+GATES2 = ["cnot", "cz", "swap", "cy"]
 # X / Y measurements: op tuple (name, q, determinism, scripted_bit); driver token of the model
 XYMEAS = {"measure_x": "measx", "measure_y": "measy", "x_measurement_gate": "xmeas", "apply_x_measurement": "xmeas"}
 
@@ -76,7 +76,7 @@ def gen_op(rng, n, nmax, malformed=False):
         b = b if b < a else b + 1
         return (rng.choice(GATES2), a, b)
     if w < 0.61:
-        return ("meas", rng.randrange(n), rng.choice([0, 1, "p"]), rng.randrange(2))
+        return ("meas" if rng.random() < 0.85 else "measure_z", rng.randrange(n), rng.choice([0, 1, "p"]), rng.randrange(2))
     if w < 0.68:
         return (rng.choice(sorted(XYMEAS)), rng.randrange(n), rng.choice([0, 1, "p"]), rng.randrange(2))
     if w < 0.78:
@@ -155,6 +155,13 @@ def apply_impl(tab, op, scripted, rng_mod):
         tab = tr.control_z_gate(tab, op[1], op[2])
     elif k == "swap":
         tab = cl.swap_gate(tab, op[1], op[2])
+    elif k == "cy":
+        tab = tr.control_y_gate(tab, op[1], op[2])
+    elif k == "measure_z":
+        # returns only the outcome; the caller's tableau is the post-measurement state
+        scripted.queue = [op[3]]
+        o = cl.measure_z(tab, op[1], det_of(op[2]))
+        outs.append((int(o), None))
     elif k == "meas":
         scripted.queue = [op[3]]
         tab, o, p = cl.z_measurement_gate(tab, op[1], det_of(op[2]))
@@ -232,6 +239,11 @@ def op_token(op):
     k = op[0]
     if k in GATES1:
         return f"{k}:{op[1]}"
+    if k == "cy":
+        # control_y_gate = phase_gate; z_gate; cnot_gate; phase_gate (on the target)
+        return f"s:{op[2]},z:{op[2]},cnot:{op[1]}:{op[2]},s:{op[2]}"
+    if k == "measure_z":
+        return f"meas:{op[1]}:{outcome_bit(op[2], op[3])}"
     if k in GATES2:
         return f"{k}:{op[1]}:{op[2]}"
     if k == "meas":
@@ -312,14 +324,16 @@ def dense_expected(rho, n, op, tab_after_n, observed):
         U = tu.cz_matrix(n, op[1], op[2])
     elif k == "swap":
         U = tu.swap_matrix(n, op[1], op[2])
+    elif k == "cy":
+        U = tu.op_on(n, op[1], np.diag([1, 0])) + tu.op_on(n, op[1], np.diag([0, 1])) @ tu.op_on(n, op[2], tu.Y)
     if U is not None:
         return [tu.conj(U, rho)]
-    if k == "meas":
+    if k in ("meas", "measure_z"):
         q, det, sb = op[1], op[2], op[3]
         o, was_random = observed[0]
         _, p1 = tu.project(rho, n, q, 1)
         is_random = 1e-9 < p1 < 1 - 1e-9
-        if was_random != is_random:
+        if was_random is not None and was_random != is_random:
             return None
         want = (1 if p1 > 0.5 else 0) if not is_random else outcome_bit(det, sb)
         if o != want:
@@ -497,7 +511,7 @@ def one_walk(ctx, res, drv, rng, n0, steps, nmax, malformed_rate=0.03, dense_max
             if same and op[0] == "meas":
                 o, was_random = outs[0]
                 same = rep.get("outs") == f"{o}{'r' if was_random else 'd'}"
-            if same and op[0] in XYMEAS:
+            if same and (op[0] in XYMEAS or op[0] == "measure_z"):
                 o, was_random = outs[0]
                 mo = rep.get("outs", "")
                 same = mo[:1] == str(o) and (was_random is None or mo[1:] == ("r" if was_random else "d"))
@@ -559,7 +573,7 @@ def exhaustive_two_qubit(ctx, res, drv):
         ops.append(("resetx", q, 1, 0, 0))
         ops.append(("resety", q, 0, 1, 0))
         for d in (0, 1):
-            for k in sorted(XYMEAS):
+            for k in sorted(XYMEAS) + ["measure_z"]:
                 ops.append((k, q, d, 0))
     ops += [("insert", 0), ("insert", 1), ("insert", 2), ("add",)]
     for q in (0, 1):
